@@ -4,13 +4,14 @@ Rec == ndJsonDeserialize(IOEnv.TRACE)
 NV == Rec[1].nmax
 PD == 6
 CONSTANT Enforce
-VARIABLES l, nv, cnf, node, root, den
+VARIABLES l, nv, cnf, node, root, den, store
 INSTANCE TopDownApi
-vars == <<l, nv, cnf, node, root, den>>
+vars == <<l, nv, cnf, node, root, den, store>>
 EnfC06 == {"C06"}
 EnfC07 == {"C07"}
+EnfC11 == {"C11"}
 EnfAll == {"C06", "C07", "C10"}
-Init == l = 2 /\ nv = 0 /\ cnf = << >> /\ node = << >> /\ root = [s \in TSlots |-> 0] /\ den = [s \in TSlots |-> TrueFn]
+Init == l = 2 /\ store = "std" /\ nv = 0 /\ cnf = << >> /\ node = << >> /\ root = [s \in TSlots |-> 0] /\ den = [s \in TSlots |-> TrueFn]
 Step ==
   /\ l <= Len(Rec)
   /\ l' = l + 1
